@@ -241,8 +241,18 @@ func GetAttrString(self Object, key string) (res Object, err error) {
 		}
 	}
 
-	// Look in the instance dictionary if it exists
-	if I, ok := self.(IGetDict); ok {
+	if tp, ok := self.(*Type); ok {
+		// self is a class: look in its own dictionary and then
+		// along its MRO, binding what is found to the class
+		// (see type_getattro in typeobject.c)
+		if res = tp.NativeGetAttrOrNil(key); res != nil {
+			if I, ok := res.(I__get__); ok {
+				return I.M__get__(None, tp)
+			}
+			return res, nil
+		}
+	} else if I, ok := self.(IGetDict); ok {
+		// Look in the instance dictionary if it exists
 		dict := I.GetDict()
 		res, ok = dict[key]
 		if ok {
